@@ -72,6 +72,13 @@ def rand_program(rng, nvars, max_ops):
                 continue
             ops.append({"o": "un", "f": f})
             st[-1] = (_apply_unary(f, v), rat and f in ("neg", "abs"))
+        elif k < 0.36:
+            # the same object on both sides:  x op x  /  x op= x
+            f = rng.choice(RATIONAL_BIN)
+            if f == "/" and abs(v) < 0.1:
+                continue
+            ops.append({"o": rng.choice(["binSelf", "cmpdSelf"]), "f": f})
+            st[-1] = ({"+": 2 * v, "-": 0.0, "*": v * v, "/": 1.0}[f], rat)
         elif k < 0.70:
             # Evaluation (op) Evaluation, binary or compound
             if len(st) < 2:
